@@ -65,7 +65,9 @@ func c02Consumer(r *core.Rng, ps []*gen.Pipe, traced bool, pre []*gen.Pipe) (stm
 		body = append(body, wr(sl("B:"), toa(bval), sl("\n")))
 	}
 	// work that uses the temp register, calls and (sometimes) an inner loop
-	switch r.Intn(4) {
+	switch r.Intn(6) {
+	case 4, 5: // a call of a function that runs loops of its own (same loop ids, one call deeper)
+		body = append(body, ast.Assign{Name: "acc", Value: ast.Binary{Op: "+", L: nm("acc"), R: icall([]string{"gsumto", "gzipto"}[r.Intn(2)], nm("v"))}})
 	case 0:
 		body = append(body, ast.Assign{Name: "acc", Value: ast.Binary{Op: "+", L: nm("acc"), R: ast.Binary{Op: "*", L: ast.Binary{Op: "+", L: nm("v"), R: ast.IntLit{V: 1}}, R: ast.IntLit{V: 3}}}})
 	case 1:
@@ -409,6 +411,12 @@ func c02Diff(ctx *core.Ctx, idx int) core.Result {
 	var extra map[string]any
 	if r.Chance(1, 2) {
 		ps, _ := c02Pipes(r)
+		if r.Chance(1, 3) {
+			// the outermost stage first runs its source to the end in a loop of its own (its contexts are on the
+			// free list when the consumer's body runs), untraced sessions only
+			k := r.Intn(len(ps))
+			ps[k] = &gen.Pipe{Kind: "pre", A: ps[k], ID: 900 + k}
+		}
 		pid := 0
 		cons, _, shape := c02Consumer(r, ps, false, c02Pre(r, &pid))
 		stmts = append(append([]ast.Node{}, pipeLibrary(false)...), cons...)
